@@ -8,8 +8,10 @@ PROP = "C01"
 LEAN_MODS = ["Cte.Props.C01"]
 HARNESS = "c01"
 N = {"quick": 0, "thorough": 0}
-USES_DRIVER = False
-CORRESPONDENCES = []
+CORRESPONDENCES = ["hulc2model as a process = Cli.cliMain on the same argument list with the library outcome observed in-process: exit status and "
+                   "standard output (exactly the JSON + newline / empty)",
+                   "thor FILE -o P [-v]* as a process = Cli.thorMain: exit status, content of P afterwards (model JSON whatever P held before), "
+                   "whether anything goes to standard output"]
 GENERATED_OBLIGATIONS = ["Cte/Gen/StdoutSites.lean regenerated from the sources of hulc, bemodel, climate, hulc2model (repo_lib_silent re-checked)"]
 BINDIR = os.path.join(CACHE, "target-repo", "debug")
 HARNESS_ARGS = {"quick": {"bindir": BINDIR}, "thorough": {"bindir": BINDIR}}
@@ -36,7 +38,31 @@ def generate(rundir, tier):
 
 
 def compare(case, out):
-    return []
+    i = case["impl"]
+    res = []
+    if case.get("op") == "cli" and "spawn_error" not in i:
+        _stats["cli_runs_compared_with_automaton"] += 1
+        if "status" not in out:
+            return [(CORRESPONDENCES[0], f"model gave {str(out)[:120]}")]
+        if i["status"] != out["status"]:
+            res.append((CORRESPONDENCES[0], f"{case['label']}: exit status {i['status']}, automaton {out['status']}"))
+        got = "empty" if i["stdout_len"] == 0 else ("model-json-newline" if i.get("stdout_is_exactly_library_json") else "other")
+        if got != out["stdout"]:
+            res.append((CORRESPONDENCES[0], f"{case['label']}: standard output is {got}, automaton says {out['stdout']}"))
+    elif case.get("op") == "thor":
+        _stats["thor_runs_compared_with_automaton"] += 1
+        if "status" not in out:
+            return [(CORRESPONDENCES[1], f"model gave {str(out)[:120]}")]
+        if i["library_converts"]:
+            if i["status"] != out["status"]:
+                res.append((CORRESPONDENCES[1], f"{case['label']}: exit status {i['status']}, automaton {out['status']}"))
+            if i["file"] != out["file"]:
+                res.append((CORRESPONDENCES[1], f"{case['label']}: the -o file holds {i['file']}, automaton says {out['file']}"))
+            if i["stdout_nonempty"] != (out["stdout_writes"] > 0):
+                res.append((CORRESPONDENCES[1], f"{case['label']}: standard output non-empty = {i['stdout_nonempty']}, automaton writes {out['stdout_writes']}"))
+        elif (i["status"] == 0) != (out["status"] == 0):
+            res.append((CORRESPONDENCES[1], f"{case['label']}: exit status {i['status']} on a file the library rejects, automaton {out['status']}"))
+    return res
 
 
 def oracle(case):
@@ -44,7 +70,10 @@ def oracle(case):
     i = case["impl"]
     if "spawn_error" in i:
         return [{"what": f"cannot run the tool: {i['spawn_error']}", "key": {"class": "spawn"}}]
-    if case["kind"] == "tool":
+    if case["kind"] == "tool-noargs":
+        if i["status"] in (0, None) or i["stdout_len"] != 0:
+            v.append({"what": f"without arguments the tool exits with {i['status']} and writes {i['stdout_len']} bytes to standard output", "key": {"class": "no-arguments"}})
+    elif case["kind"] == "tool":
         _stats["tool_runs"] += 1
         if i["library_converts"]:
             _stats["convertible"] += 1
